@@ -267,7 +267,7 @@ Definition index_u (x : val) (cm : marks) (key : val) : val * list diag :=
   else
   let ty := type_of x in
   let kty := type_of key in
-  if ty_eqb kty TDyn || ty_eqb ty TDyn then (with_marks dyn_val cm, [])
+  if ty_eqb kty TDyn || ty_eqb ty TDyn then (with_marks (with_marks dyn_val cm) (marks_of key), [])
   else
   match ty with
   | TList _ | TTuple _ | TMap _ =>
@@ -297,7 +297,7 @@ Definition index_u (x : val) (cm : marks) (key : val) : val * list diag :=
       | CUnsupported => (dyn_val, [dunsupported])
       | CErr e => (dyn_val, [derr S_InvalidIndex [FConv e]])
       | COk key' =>
-          if negb (is_known key') then (with_marks dyn_val cm, [])
+          if negb (is_known key') then (with_marks (with_marks dyn_val cm) (marks_of key'), [])
           else
           match fst (unmark key') with
           | VStr name =>
